@@ -40,13 +40,32 @@ func fresh(long bool) string {
 	n := fmt.Sprintf("sym%d_%d_%d", os.Getpid(), vt.Cfg.Shard, uniq.Add(1))
 	if long {
 		n += "_" + strings.Repeat("longsymbolname", 6)
+		if uniq.Load()%3 == 0 {
+			// some symbols are several hundred bytes long (a long JSON key, a long property name)
+			n += strings.Repeat("_verylongsymbolnamepart", 12+int(uniq.Load()%20))
+		}
 	}
 	return n
 }
 
 // genProgram builds one terminating program. shared are brand-new names that several goroutines of the round use at once.
+// arity grows through the life of the process: calls with more arguments than any earlier call
+var arity atomic.Int64
+
+func manyArgs(n int) string {
+	parts := make([]string, n)
+	for i := range parts {
+		parts[i] = fmt.Sprint(i + 1)
+	}
+	return strings.Join(parts, ", ")
+}
+
 func genProgram(t *rapid.T, shared []string) (src string, interns int, reads bool) {
 	var stmts []string
+	if a := int(arity.Load()); a >= 9 && rapid.Bool().Draw(t, "wide call") {
+		// a call with more positional arguments than any call before this round (every goroutine of the round may do it at once)
+		stmts = append(stmts, fmt.Sprintf("wide := {|| [\\%d, \\%d, \\0.len]}(%s)", a, a-1, manyArgs(a)))
+	}
 	n := rapid.IntRange(2, 8).Draw(t, "stmts")
 	for i := 0; i < n; i++ {
 		long := rapid.IntRange(0, 4).Draw(t, "long") == 0
@@ -162,6 +181,12 @@ func TestConcurrentEvaluations(t *testing.T) {
 			shared = append(shared, fresh(rapid.IntRange(0, 3).Draw(rt, "sharedlong") == 0))
 		}
 		r := Round{}
+		if arity.Load() < 9 {
+			arity.Store(8)
+		}
+		if arity.Load() < 600 {
+			arity.Add(int64(rapid.IntRange(1, 9).Draw(rt, "arity step")))
+		}
 		writers, readers, interns := 0, 0, 0
 		for i := 0; i < n; i++ {
 			src, k, reads := genProgram(rt, shared)
